@@ -327,6 +327,7 @@ def stmEvents : Stm → List Event
   | .minimize _ _ _ _ _ b => bodyEvents b
   | .external _ b _ => bodyEvents b
   | .showSig n a _ => [fullEvent ⟨n, a⟩]
+  | .showTerm _ b => bodyEvents b   -- fix da9b991
   | _ => []
 
 /-- `analyze_usage`: the events `self.used` / `self.used_positions` are built from -/
